@@ -98,21 +98,22 @@ static void judge(vf::Ctx& ctx, const Problem& P, const Solver& es, long restart
     if (!finite) { bad("non-finite", 0, 0, -1); return; }
     const LD grow = std::sqrt((LD) (1 + restarts));
     const LD eps23 = std::pow(u, LD(2) / 3);
+    const LD nn = std::max(P.n, 10), nc = std::max(P.ncv, 10);
     for (long i = 0; i < k; i++)
     {
         const CLD lam((LD) evals[i].real(), (LD) evals[i].imag());
         const LD nx = X.col(i).norm();
         // Arnoldi re-orthogonalises only when needed (0.717 test): the drift of V'V - I adds up over the restarts
-        const LD nallow = C_NORM * P.ncv * u * (LD) (1 + restarts);
+        const LD nallow = C_NORM * nc * u * (LD) (1 + restarts);
         if (!within(ctx, std::string(P.clean ? "" : "corpus:") + "unit-norm", std::abs(nx - 1), nallow)) bad("unit-norm", std::abs(nx - 1), nallow, i);
         const LD res = fnorm(VecCLD(P.AL * X.col(i) - lam * X.col(i)));
         LD allow;
         if (P.mode == 0)
-            allow = (LD) a.tol * std::max(eps23, std::abs(lam)) + C_RES * P.n * u * P.normA * grow;
+            allow = (LD) a.tol * std::max(eps23, std::abs(lam)) + C_RES * nn * u * P.normA * grow;
         else if (P.mode == 1)
         {
             const LD d = std::abs(lam - CLD((LD) P.sigmar));  // 1/|nu|
-            allow = (LD) a.tol * P.normAs * std::max(LD(1), eps23 * d) + C_RES * P.n * u * (P.normAs / P.smin) * P.normAs * std::max(LD(1), d / P.smin) * grow;
+            allow = (LD) a.tol * P.normAs * std::max(LD(1), eps23 * d) + C_RES * nn * u * (P.normAs / P.smin) * P.normAs * std::max(LD(1), d / P.smin) * grow;
         }
         else
         {
@@ -131,7 +132,7 @@ static void judge(vf::Ctx& ctx, const Problem& P, const Solver& es, long restart
             }
             else inv_other = std::numeric_limits<LD>::infinity();
             const LD stretch = inv_other * P.normP;
-            allow = (LD) a.tol * stretch * std::max(LD(1), eps23 / absnu) + C_RES * P.n * u * P.kappaS * P.normOP * stretch / absnu * grow + C_RES * P.n * u * P.normA * grow;
+            allow = (LD) a.tol * stretch * std::max(LD(1), eps23 / absnu) + C_RES * nn * u * P.kappaS * P.normOP * stretch / absnu * grow + C_RES * nn * u * P.normA * grow;
         }
         const char* rn = P.mode == 0 ? "residual" : (P.mode == 1 ? "residual-realshift" : "residual-cplxshift");
         if (!within(ctx, std::string(P.clean ? "" : "corpus:") + rn, res, allow)) bad("residual", res, allow, i);
@@ -276,7 +277,7 @@ void vf_run_case(vf::Ctx& ctx, long idx)
     }
     P.clean = !corpus;
     const int nmax = ctx.thorough && !corpus ? (r.coin(0.15) ? 150 : 70) : (P.mode == 2 ? 40 : 50);
-    vg::Config c = vg::gen_config(r, 3, nmax);
+    vg::Config c = vg::gen_config(r, corpus ? 3 : 6, nmax);   // tiny problems: corpus and C13 (see c01_sym.cpp)
     P.n = c.n; P.nev = c.nev; P.ncv = c.ncv;
     const int dec = sizeof(T) == 4 ? 4 : 8;
     if (P.clean)
